@@ -45,7 +45,7 @@ def run(cx):
 
 
 def lexical(cx, g, rule, follow_rules):
-    e = strip_fail(g.inline(g.rules[rule]))
+    e = peg.normalize_lookahead(strip_fail(g.inline(g.rules[rule])))
     follow = []
     for fr in follow_rules:
         follow += g.first_chars(fr)[0]
@@ -80,6 +80,18 @@ def r1(cx, g):
          "interface_name <= L_upper (>= 2 elements, first char a letter, no element starts or ends with a hyphen)", cuts)
     incl(cx, "grammar:interface_name:lower-bound", "interface_name", site("interface_name"), REF_IFACE_LOWER, ifc,
          "L_lower (strict lower-case reverse-domain names) <= interface_name", cuts)
+    # trivia: a comment runs from '#' to the first line terminator, and the characters that stop it are exactly those eol_r() starts with
+    LT = ((10, 10), (13, 13), (0x2028, 0x2029))
+    REF_EOL = alt(lit("\n"), lit("\r\n"), lit("\r"), lit("\u2028"), lit("\u2029"))
+    NOT_LT = ("class", ((0, 9), (11, 12), (14, 0x2027), (0x202A, peg.MAXCP)))
+    REF_COMMENT = seq(lit("#"), star(NOT_LT), REF_EOL)
+    eolr = strip_fail(g.inline(g.rules["eol_r"]))
+    cm = lexical(cx, g, "comment", [])
+    cuts_t = peg.collect_cuts(eolr, cm, REF_EOL, REF_COMMENT)
+    incl(cx, "grammar:eol_r:subset-of-spec", "eol_r", site("eol_r"), eolr, REF_EOL, "eol_r <= {LF, CRLF, CR, U+2028, U+2029}", cuts_t)
+    incl(cx, "grammar:eol_r:superset-of-spec", "eol_r", site("eol_r"), REF_EOL, eolr, "{LF, CRLF, CR, U+2028, U+2029} <= eol_r", cuts_t)
+    incl(cx, "grammar:comment:subset-of-spec", "comment", site("comment"), cm, REF_COMMENT, "comment <= '#' [^line terminator]* line-terminator", cuts_t)
+    incl(cx, "grammar:comment:superset-of-spec", "comment", site("comment"), REF_COMMENT, cm, "'#' [^line terminator]* line-terminator <= comment", cuts_t)
     if cx.tier == "thorough":
         # independent cross-check of the automata route: run the grammar rules under exact PEG semantics (interpreter over the IR)
         # on every string over one representative per character class up to 7 characters and compare with the references
